@@ -5,12 +5,14 @@
 EXTENDS CLI, TLC, Json, IOUtils, SequencesExt, FiniteSetsExt
 ASSUME NoModeFails /\ TwoModesFail /\ NeedKey /\ BadValueFails
 Bases == { <<"e", "iF", "oO">>, <<"e", "iF", "oO", "kK">>, <<"e", "iF">>, <<"en", "iF", "oO", "c2", "h1">>, <<"le", "iLong", "oO">>,
-           <<"d", "iE", "oO", "kK">>, <<"ld", "iE", "kK", "oO">>, <<"v", "iE", "kK">>, <<"vn", "iE", "kK">>, <<"V">>, <<"h">>, <<"e", "iE", "oO", "kW">>, <<"e", "iProc">>, <<"e", "iProc", "oO">> }
+           <<"d", "iE", "oO", "kK">>, <<"ld", "iE", "kK", "oO">>, <<"v", "iE", "kK">>, <<"vn", "iE", "kK">>, <<"V">>, <<"h">>, <<"e", "iE", "oO", "kW">>, <<"e", "iProc">>, <<"e", "iProc", "oO">>, <<"e", "iLen122">>, <<"e", "iLen123">>, <<"en", "iLen123", "kK">> }
 Replace(b) == { [b EXCEPT ![i] = t] : i \in 1..Len(b), t \in Tokens }
 InsertT(b) == { SubSeq(b, 1, i) \o <<t>> \o SubSeq(b, i + 1, Len(b)) : i \in 0..Len(b), t \in Tokens }
 DeleteT(b) == { SubSeq(b, 1, i - 1) \o SubSeq(b, i + 1, Len(b)) : i \in 1..Len(b) }
 Perms(b) == { [i \in 1..Len(b) |-> b[p[i]]] : p \in { q \in [1..Len(b) -> 1..Len(b)] : \A x, y \in 1..Len(b) : x # y => q[x] # q[y] } }
-All == UNION { Replace(b) \cup InsertT(b) \cup DeleteT(b) \cup Perms(b) : b \in Bases } \cup Seqs(2)
+AllRaw == UNION { Replace(b) \cup InsertT(b) \cup DeleteT(b) \cup Perms(b) : b \in Bases } \cup Seqs(2)
+\* the empty argument vector starts the interactive prompt mode, which the property excludes
+All == AllRaw \ { <<>> }
 Vectors == SetToSeq({ [tokens |-> v, class |-> Class(v)] : v \in All })
 ASSUME JsonSerialize(IOEnv.OUT, Vectors)
 ASSUME PrintT(<<"VECTORS", Len(Vectors), Cardinality({v \in All : Class(v) = "OK"}), Cardinality({v \in All : Class(v) = "MAY"})>>)
